@@ -154,8 +154,9 @@ func (x *vc) callStatic(fr *frame, st *state, callee *ssa.Function, binds []Val,
 		}
 		return r
 	}
-	if x.onStack(callee) || len(x.stack) >= x.maxInline {
-		x.note("call to %s: recursion or inline depth exceeded without contract: havoc", key)
+	x.nInlined++
+	if x.onStack(callee) || len(x.stack) >= x.maxInline || x.nInlined > 120 || len(x.decls) > 40000 {
+		x.note("call to %s: recursion, inline depth or VC size budget exceeded without contract: havoc", key)
 		x.havocCall(st, resT, key, true)
 		return x.freshResult(st, resT, "rec_"+callee.Name())
 	}
@@ -376,6 +377,16 @@ func (x *vc) applyContract(fr *frame, st *state, fc *funcContract, callee *ssa.F
 	}
 	for _, out := range copyOuts {
 		out()
+	}
+	// results of the k-th call to a callee, for use in the caller's postconditions: ret(callee#k, i)
+	if fr.top || len(x.stack) <= 3 {
+		if x.callRes == nil {
+			x.callRes = map[string]Val{}
+			x.callResOrd = map[string]int{}
+		}
+		k := x.callResOrd[what]
+		x.callResOrd[what] = k + 1
+		x.callRes[fmt.Sprintf("%s#%d", what, k)] = res
 	}
 	return res
 }
@@ -640,6 +651,9 @@ func (x *vc) appendOp(st *state, args []Val, resT types.Type) Val {
 func (x *vc) stdlibModel(fr *frame, st *state, callee *ssa.Function, args []Val, resT types.Type, pos string) (Val, bool) {
 	name := callee.String()
 	intT := types.Typ[types.Int]
+	if v, ok := x.reflectModel(fr, st, callee, args, resT, pos); ok {
+		return v, true
+	}
 	switch name {
 	case "unicode/utf8.DecodeRuneInString":
 		s := args[0]
@@ -713,7 +727,13 @@ func (x *vc) stdlibModel(fr *frame, st *state, callee *ssa.Function, args []Val,
 		return Val{T: ite(app(">=", args[0].T, "0"), "(_ +oo 11 53)", "(_ -oo 11 53)"), Typ: resT}, true
 	case "math.NaN":
 		return Val{T: "(_ NaN 11 53)", Typ: resT}, true
-	case "math.Mod", "math.Pow", "math.Pow10", "math.Log", "math.Log10", "math.Exp", "math.Log2", "math.Nextafter", "math.Modf", "math.Max", "math.Min", "math.Float64bits", "math.Float64frombits", "math.Signbit", "math.Copysign":
+	case "math.Mod", "math.Pow":
+		// trusted, uninterpreted: the contract language names the same function (fmod / fpow)
+		fn := map[string]string{"math.Mod": "math_mod", "math.Pow": "math_pow"}[name]
+		x.needDecl(fmt.Sprintf("(declare-fun %s (F64 F64) F64)", fn))
+		x.trusted[name+": uninterpreted function "+fn+" (IEEE semantics of the library function are trusted, not modelled)"] = true
+		return Val{T: x.define("m", sF64, app(fn, args[0].T, args[1].T)), Typ: resT}, true
+	case "math.Pow10", "math.Log", "math.Log10", "math.Exp", "math.Log2", "math.Nextafter", "math.Modf", "math.Max", "math.Min", "math.Float64bits", "math.Float64frombits", "math.Signbit", "math.Copysign":
 		if name == "math.Signbit" {
 			return Val{T: app("fp.isNegative", args[0].T), Typ: resT}, true
 		}
@@ -730,6 +750,30 @@ func (x *vc) stdlibModel(fr *frame, st *state, callee *ssa.Function, args []Val,
 		return Val{T: x.define("u16", sInt, ite(okc, app("+", app("*", app("-", r1, "55296"), "1024"), app("-", r2, "56320"), "65536"), "65533")), Typ: resT}, true
 	}
 	return Val{}, false
+}
+
+// fpOp: the SMT operator for a float64 arithmetic operation. A contract may ask for `abstract-float`: + - * / become
+// uninterpreted functions (in the code and in the contract alike). That is an over-approximation — enough where the
+// clauses only need "the result is THE sum/quotient of these operands" — and avoids bit-blasting 53-bit multipliers.
+func (x *vc) fpOp(op string) string {
+	if x.topFC == nil || !x.topFC.abstractFloat {
+		return op
+	}
+	name := map[string]string{"fp.add RNE": "uf_fadd", "fp.sub RNE": "uf_fsub", "fp.mul RNE": "uf_fmul", "fp.div RNE": "uf_fdiv"}[op]
+	if name == "" {
+		return op
+	}
+	x.needDecl(fmt.Sprintf("(declare-fun %s (F64 F64) F64)", name))
+	return name
+}
+
+func (x *vc) needDecl(decl string) {
+	for _, d := range x.decls {
+		if d == decl {
+			return
+		}
+	}
+	x.decls = append(x.decls, decl)
 }
 
 func (x *vc) needMax0() {
